@@ -12,6 +12,7 @@ def check(rep):
     PR.rule_key(ctx)
     PR.rule_key_order_independent(ctx, rid="C12.ALPHABETICAL")
     PR.rule_renderers(ctx, rid="C12.SALT-EXACT", kinds=("str",))
+    PR.rule_coercions(ctx, rid="C12.SALT-VALUE", fields={"salt", "splitting_fields"})
     ER.rule_call_forwards(ctx, rid="C12.CALL-FORWARDS")
     ER.rule_installed_function(ctx, rid="C12.INSTALLED-FUNCTION", strict=False, facets=("installed",))
     ER.rule_value_keyed_caches(ctx, rid="C12.NO-VALUE-KEYED-CACHE", modules={"binning/binning.py", "experiment_evaluator.py"})
